@@ -56,7 +56,9 @@ def showItem : Item → String
 def handle (toks : List String) : Option String :=
   match toks with
   | ["io", _wrap, vec, rs, ws, prog] => do
-    let vec ← (if vec == "v" then some true else if vec == "s" then some false else none)
+    -- "V" / "S": the same two socket kinds behind hickory's tokio-to-futures adapters, which the
+    -- model treats as transparent (the correspondence run checks exactly that)
+    let vec ← (if vec == "v" || vec == "V" then some true else if vec == "s" || vec == "S" then some false else none)
     let rs ← parseList parseREv rs
     let ws ← parseList parseWEv ws
     let prog ← parseList parseAct prog
